@@ -69,7 +69,7 @@ func latest(revs []string) string {
 
 func (h Header) text() string {
 	var b strings.Builder
-	fmt.Fprintf(&b, "module %s {\n namespace \"urn:%s\";\n prefix p;\n", h.Name, h.Tag)
+	fmt.Fprintf(&b, "module %s {\n namespace \"urn:%s\";\n prefix p;\n import common { prefix cm; }\n", h.Name, h.Tag)
 	for _, r := range h.Revisions {
 		fmt.Fprintf(&b, " revision %s;\n", r)
 	}
@@ -156,6 +156,9 @@ func checkRevisions(c Case, o *ev.Outcome) {
 	}
 	for _, perm := range perms {
 		ms := yang.NewModules()
+		if err := ms.Parse("module common { namespace \"urn:common\"; prefix cm; }", "common.yang"); err != nil {
+			panic(err)
+		}
 		accepted := map[key]int{}
 		for _, i := range perm {
 			h := c.Headers[i]
@@ -209,7 +212,7 @@ func checkRevisions(c Case, o *ev.Outcome) {
 				return
 			}
 		}
-		if len(c.Importers) > 0 {
+		{
 			var errs []error
 			if !ev.Guard(o, "Process", func() { errs = ms.Process() }) {
 				return
@@ -217,6 +220,15 @@ func checkRevisions(c Case, o *ev.Outcome) {
 			if len(errs) > 0 {
 				o.Violate("imports-resolve", "C13/revisions/import-fails/"+cls, "load order %v: processing importers of loaded modules failed: %v", perm, errs)
 				return
+			}
+			// every revision that the registry holds has its own import bound, whether or not anything names it
+			for k, mod := range ms.Modules {
+				for _, im := range mod.Import {
+					if im.Module == nil || im.Module.Name != im.Name {
+						o.Violate("imports-resolve", "C13/revisions/own-import-unbound/"+cls, "load order %v: after processing, the import of %s in the module filed as %s is not bound", perm, im.Name, k)
+						return
+					}
+				}
 			}
 			for _, im := range c.Importers {
 				mod := ms.Modules[im.Name]
